@@ -355,7 +355,7 @@ def from_grammar_order(repo, res, rule="MPT"):
         if loops:
             lp = loops[-1][0]
             it = A.resolve(lp["iter"], envs.get(id(lp)))
-            names = call_nest(it, {"iter_mut", "get_nonterminals_resolution_order"})
+            names = call_nest(it, {"iter_mut", "values_mut", "get_nonterminals_resolution_order"})
             res.check(bool(names), rule, f"{rule}:{fq}:definition-loop:{nm}", f"loop over {A.show(it)[:120]}", f"{fn.file}:{lp['l']}")
         else:
             res.bad(rule, f"{rule}:{fq}:definition-loop:{nm}", "not inside a loop over the definitions", f"{fn.file}:{n['l']}")
